@@ -36,7 +36,11 @@ def vacuum(grid, dz):
 def probe(grid, tilt, **kw):
     import abtem
     ext = (grid[0] * float(S), grid[1] * float(S))
-    return abtem.Probe(energy=ENERGY, semiangle_cutoff=25, extent=ext, gpts=tuple(grid), tilt=tilt, C21=400.0, phi21=0.5, C10=-30.0, **kw)
+    p = abtem.Probe(energy=ENERGY, semiangle_cutoff=25, extent=ext, gpts=tuple(grid), tilt=tilt, C21=400.0, phi21=0.5, C10=-30.0, **kw)
+    # the builder reaches its use through a copy / deepcopy / pickle round trip (route chosen by the grid and the tilt)
+    from ..routes import reroute
+    import zlib
+    return reroute(p, zlib.crc32(repr((tuple(grid), repr(tilt))).encode()))[0]
 
 
 def mrad(target_px, Z):
